@@ -1,10 +1,10 @@
 CONSTANTS
   Threads = {1, 2}
   Routes = {"/a"}
-  Hosts = {0, 1}
+  Hosts = {0}
   Files = {"f"}
   FileOf <- MCFileOf
-  MCSizes = {1, 3}
+  MCSizes = {1, 2, 3}
   MCIds = {1, 2}
   Payloads <- MCPayloads
   Limit = 2
